@@ -306,6 +306,18 @@ def step (st : St) (line : String) : St × String :=
   | ["psep", sep] => match decCps sep with
     | some sep => (st, rtext st (fun re => cssTextSep st.prefs re sep true st.d.seq))
     | none => bad st
+  | ["psrc"] =>
+    let f := fun (re : REnv) => (srcOf st.prefs re (declSeqP st.prefs st.d.seq)).map (fun it => match it with
+      | .decl n v p => "D:" ++ encCps n ++ ":" ++ encCps v ++ ":" ++ encCps p
+      | .comment t => "M:" ++ encCps t
+      | .semicolon => "S")
+    let a := f (st.renv false)
+    let b := f (st.renv true)
+    (st, if a == b then showList a else "missing")
+  | ["vpsrc"] =>
+    (st, showList ((vWritten st.prefs st.v.seq).map (fun x => match x with
+      | .var nm val => "var/" ++ encCps nm ++ "/" ++ encCps ((st.renv false).vtext val)
+      | .other t => "other/" ++ encCps t)))
   | ["vptext"] => (st, rtext st (fun re => vCssTextP st.prefs re 1 st.v))
   | _ => bad st
 
